@@ -275,3 +275,5 @@ def run(ctx, rep):
     rep.floor("C06.cast", "narrowing casts inspected", castlib.cast_audit(ctx, rep, "C06", ['decode.rs']), 4)
     from rules import iolib
     iolib.count_rules(ctx, rep, "C06")
+    from rules import C09 as _C09
+    compose(ctx, rep, "C09", "C06.enc", r"^C09\.(units|start|count)$")
